@@ -218,6 +218,7 @@ func (f *fragmentList) insert(in *layers.IPv4, t time.Time) (*layers.IPv4, error
 	if fragOffset >= f.Highest {
 		f.List.PushBack(in)
 	} else {
+		inserted := false
 		for e := f.List.Front(); e != nil; e = e.Next() {
 			frag, _ := e.Value.(*layers.IPv4)
 			if in.FragOffset == frag.FragOffset {
@@ -241,14 +242,22 @@ func (f *fragmentList) insert(in *layers.IPv4, t time.Time) (*layers.IPv4, error
 				debug.Printf("defrag: inserting frag %d before existing frag %d\n",
 					fragOffset, frag.FragOffset*8)
 				f.List.InsertBefore(in, e)
+				inserted = true
 				break
 			}
+		}
+		if !inserted {
+			// It starts after every fragment we have but below the
+			// highest byte seen (it overlaps the last one): it still
+			// belongs at the end of the list, otherwise it would be
+			// counted but never built.
+			f.List.PushBack(in)
 		}
 	}
 
 	f.LastSeen = t
 
-	fragLength := in.Length - 20
+	fragLength := in.Length - uint16(in.IHL)*4
 	// After inserting the Fragment, we update the counters
 	if f.Highest < fragOffset+fragLength {
 		f.Highest = fragOffset + fragLength
@@ -280,20 +289,25 @@ func (f *fragmentList) build(in *layers.IPv4) (*layers.IPv4, error) {
 	debug.Printf("defrag: building the datagram \n")
 	for e := f.List.Front(); e != nil; e = e.Next() {
 		frag, _ := e.Value.(*layers.IPv4)
+		fragLength := frag.Length - uint16(frag.IHL)*4
+		if len(frag.Payload) != int(fragLength) {
+			// a truncated capture: its bytes would end up at wrong offsets
+			return nil, errors.New("defrag: building - fragment payload does not match its length")
+		}
 		if frag.FragOffset*8 == currentOffset {
 			debug.Printf("defrag: building - adding %d\n", frag.FragOffset*8)
 			final = append(final, frag.Payload...)
-			currentOffset = currentOffset + frag.Length - 20
+			currentOffset = currentOffset + fragLength
 		} else if frag.FragOffset*8 < currentOffset {
 			// overlapping fragment - let's take only what we need
 			startAt := currentOffset - frag.FragOffset*8
 			debug.Printf("defrag: building - overlapping, starting at %d\n",
 				startAt)
-			if startAt > frag.Length-20 {
+			if startAt > fragLength {
 				return nil, errors.New("defrag: building - invalid fragment")
 			}
 			final = append(final, frag.Payload[startAt:]...)
-			currentOffset = currentOffset + frag.FragOffset*8
+			currentOffset = currentOffset + fragLength - startAt
 		} else {
 			// Houston - we have an hole !
 			debug.Printf("defrag: hole found while building, " +
@@ -303,12 +317,16 @@ func (f *fragmentList) build(in *layers.IPv4) (*layers.IPv4, error) {
 		debug.Printf("defrag: building - next is %d\n", currentOffset)
 	}
 
+	if currentOffset != f.Highest || int(f.Highest)+int(in.IHL)*4 > IPv4MaximumSize {
+		return nil, errors.New("defrag: building - fragments do not add up to a datagram")
+	}
+
 	// TODO recompute IP Checksum
 	out := &layers.IPv4{
 		Version:    in.Version,
 		IHL:        in.IHL,
 		TOS:        in.TOS,
-		Length:     f.Highest,
+		Length:     f.Highest + uint16(in.IHL)*4,
 		Id:         in.Id,
 		Flags:      0,
 		FragOffset: 0,
